@@ -52,6 +52,16 @@ def run(chk):
         c = random_cover(rng, mix, max(mix) + rng.randrange(0, 30), rng.randrange(1, 25), rng.choice([0, 1]))
         if c:
             cs.append({"kind": "cover", "cover": c, "seed": rng.randrange(1 << 30)})
+    for base in (0, 1):
+        for hubcount, extra in ((256, [2, 3]), (300, [2, 4]), (257, [3])):
+            # a hub vertex in hundreds of cliques of one size (per-vertex counts beyond 255)
+            sz = extra[-1]
+            cover, nxt = [], base + 1
+            for _ in range(hubcount):
+                cover.append([base] + list(range(nxt, nxt + sz - 1))); nxt += sz - 1
+            if len(extra) > 1:
+                cover.append(list(range(base + 1, base + 1 + extra[0])))
+            cs.append({"kind": "cover", "cover": cover, "seed": 5})
     traces = [L.execute(c) for c in cs]
     chk.add_sample(traces[0]); chk.add_sample(traces[len(traces) // 2])
     L.judge(chk, traces, "C08")
